@@ -36,3 +36,18 @@ Theorem c12_canonical_titles_are_not_altered :
   forall tbl ns title, canonical tbl ns title -> add_norm tbl ns title = title.
 Proof. exact canonical_stored_verbatim. Qed.
 Print Assumptions c12_canonical_titles_are_not_altered.
+
+(* BEGIN PINS (tools/repin.py) *)
+From WTP Require Import Gen.GenPins.
+Module Pins.
+Import String.
+(* The models of this property were transcribed from: dumpparser.py:parse_dump_xml.
+   Gen/GenPins.v holds the digests of these functions in the current source (translate/pins.py: syntax tree without
+   docstrings, comments and layout).  A different digest means that the model is no longer known to describe the
+   code; the check then reports the broken tie and looks for a failing input. *)
+Theorem c12_models_describe_the_current_source :
+  pin_parse_dump_xml = "8c7e26e611c8eb1b"%string.
+Proof. reflexivity. Qed.
+Print Assumptions c12_models_describe_the_current_source.
+End Pins.
+(* END PINS *)
